@@ -9,6 +9,8 @@ package main
 //   typed <family> <hex> (emitted from c14_typed.go: checkMut / roundTrip) the real typed decoder on the bytes,
 //                        then the real encoder on the decoded value: "ok <hex>" | "err"; the model must agree on
 //                        accept/reject (false rejects and false accepts) and on the re-encoding (= the value).
+//                        Families: header, tx, deputynode, event, assetequity, blockconfirm, blockconfirms, handshake,
+//                        asset, changelog, changelogs and (since the strictness fixes of /repo) block.
 
 import (
 	"fmt"
@@ -213,11 +215,11 @@ func (s *c14Src) pdec(fn string) string {
 	case "decodeEmptyInterface":
 		return "emptyiface"
 	case "decodeHash":
-		return "loose32"
+		return "fixedN32"
 	case "decodeAddress":
-		return "loose20"
+		return "fixedN20"
 	case "decodeSigners":
-		return "nilor:" + s.render("types", s.types["types.Signers"], "", 0)
+		return "signers:" + s.render("types", s.types["types.Signers"], "", 0)
 	case "decodeEquity":
 		return "nilor:" + s.schema("AssetEquity")
 	case "decodeProfileChangeLogExtra":
@@ -299,23 +301,21 @@ func c14SchemaOps(c *Ctx) {
 var c14TypedOpName = map[string]string{
 	"header": "header", "tx": "tx", "deputynode": "deputynode", "event": "event", "assetequity": "assetequity",
 	"netmsg-blockconfirm": "blockconfirm", "netmsg-blockconfirms": "blockconfirms", "netmsg-handshake": "handshake",
-	"asset": "asset", "changelog": "changelog", "changelogs": "changelogs",
+	"asset": "asset", "changelog": "changelog", "changelogs": "changelogs", "block": "block",
 }
 
 // c14TypedOp records one `typed` op. accepted/re are the real decoder's verdict and the real re-encoding.
 func c14TypedOp(c *Ctx, fam string, b []byte, accepted bool, re []byte, reOK bool) {
 	name, ok := c14TypedOpName[fam]
-	if !ok || len(b) > 5000 {
+	if !ok || len(b) > 5000 && (fam != "block" || len(b) > 20000) {
 		return
 	}
-	switch fam {
-	case "asset", "changelog", "changelogs":
-		// Profile.DecodeRLP and the `size <= 0` payload tests ignore the error of Stream.Kind and therefore accept
-		// size-zero headers that are not RLP at all (0xF800 …); the item-level model starts from well-formed RLP.
-		if !c14kStrict(b, 0) {
-			c.Count("typed-op:skipped-not-rlp:" + fam)
-			return
-		}
+	// Before /repo 8a6b205 + a0389ea Profile.DecodeRLP and the `size <= 0` payload tests ignored the error of
+	// Stream.Kind and accepted size-zero headers that are not RLP at all (0xF800 …); such inputs used to be skipped here
+	// for asset / changelog / changelogs because the item-level model starts from well-formed RLP. The repaired decoders
+	// hand the error on, so the model's "generic decoder rejects => err" is the expected answer for every family.
+	if !c14kStrict(b, 0) {
+		c.Count("typed-op:not-rlp:" + fam)
 	}
 	out := "err"
 	if accepted {
